@@ -1794,12 +1794,16 @@ func (c *cachedDnsForwarder) beginUse() bool {
 	if c == nil || c.retired.Load() {
 		return false
 	}
+	verifYield("dnsfwd.beginUse.afterCheck", c)
 	c.inFlight.Add(1)
 	c.touch(time.Now())
+	verifYield("dnsfwd.beginUse.afterInc", c)
 	if !c.retired.Load() {
 		return true
 	}
+	verifYield("dnsfwd.beginUse.afterRecheck", c)
 	if c.inFlight.Add(-1) == 0 {
+		verifYield("dnsfwd.beginUse.afterDec", c)
 		_ = c.closeNow()
 	}
 	return false
@@ -1811,11 +1815,14 @@ func (c *cachedDnsForwarder) endUse() {
 	}
 	c.touch(time.Now())
 	if c.inFlight.Add(-1) == 0 {
+		verifYield("dnsfwd.endUse.afterDec", c)
 		if c.retired.Load() {
+			verifYield("dnsfwd.endUse.afterRetiredLoad", c)
 			// A new user may have begun, and retire() may have left the close to
 			// it, between the decrement above and the load of retired: close only
 			// if nobody is in flight now (no user can start once retired is set).
 			if c.inFlight.Load() == 0 {
+				verifYield("dnsfwd.endUse.afterRecheck", c)
 				_ = c.closeNow()
 			}
 		}
@@ -1840,7 +1847,9 @@ func (c *cachedDnsForwarder) retire() error {
 		return nil
 	}
 	c.retired.Store(true)
+	verifYield("dnsfwd.retire.afterStore", c)
 	if c.inFlight.Load() == 0 {
+		verifYield("dnsfwd.retire.afterLoad", c)
 		return c.closeNow()
 	}
 	return nil
